@@ -1102,6 +1102,59 @@ func c17R7(ic *IC, r *Report, skipDecl *FuncInfo, osTab, archTab *types.Var) {
 		r.Check(stripped, "R17.7", name+"/test-suffix-removed-before-split", ic.pos(splitStmt.Pos()), "the _test suffix is removed before the name is split into elements",
 			"the name is split into elements with its _test suffix still attached (no strings.TrimSuffix(name, \"_test\") dominates the split): for x_windows_test.go the last element is \"test\", so the file is loaded on every platform when test files are requested, although the Go toolchain excludes it")
 	}
+	// the part of the name before the first underscore is never a constraint (windows.go is
+	// an ordinary file name): the elements must come from the text after the first "_".
+	{
+		sc := unparen(splitStmt.(*ast.AssignStmt).Rhs[0]).(*ast.CallExpr)
+		arg := unparen(sc.Args[0])
+		whole := false
+		if id, ok := arg.(*ast.Ident); ok {
+			// an identifier: the whole (trimmed) name unless it was cut after the underscore
+			whole = true
+			obj := info.ObjectOf(id)
+			ast.Inspect(body, func(n ast.Node) bool {
+				as, ok := n.(*ast.AssignStmt)
+				if !ok || as.Pos() > splitStmt.Pos() {
+					return true
+				}
+				for i, l := range as.Lhs {
+					lid, ok := l.(*ast.Ident)
+					if !ok || info.ObjectOf(lid) != obj {
+						continue
+					}
+					var rhs ast.Expr
+					if len(as.Rhs) == len(as.Lhs) {
+						rhs = as.Rhs[i]
+					} else if len(as.Rhs) == 1 {
+						rhs = as.Rhs[0]
+					}
+					if rhs == nil {
+						continue
+					}
+					if _, isSlice := unparen(rhs).(*ast.SliceExpr); isSlice {
+						whole = false
+					}
+					if c, ok := unparen(rhs).(*ast.CallExpr); ok && isCallTo(info, c, "strings.Cut", "strings.SplitN") {
+						whole = false
+					}
+				}
+				return true
+			})
+		}
+		// a later re-slicing of the element list (a = a[1:]) also excludes the prefix
+		ast.Inspect(body, func(n ast.Node) bool {
+			if as, ok := n.(*ast.AssignStmt); ok && as.Pos() > splitStmt.Pos() && len(as.Lhs) == 1 && len(as.Rhs) == 1 {
+				if lid, ok := as.Lhs[0].(*ast.Ident); ok && info.ObjectOf(lid) == arr {
+					if _, isSlice := unparen(as.Rhs[0]).(*ast.SliceExpr); isSlice {
+						whole = false
+					}
+				}
+			}
+			return true
+		})
+		r.Check(!whole, "R17.7", name+"/prefix-is-not-a-constraint", ic.pos(splitStmt.Pos()), "the elements tested against the tables come from the text after the first underscore",
+			"the whole file name is split into elements ("+types.ExprString(sc)+"), so the part before the first underscore can be taken for a GOOS/GOARCH constraint: windows.go or arm.go is skipped on linux/amd64 although the Go toolchain selects it")
+	}
 	isLenMinus1 := func(e ast.Expr) bool {
 		be, ok := unparen(e).(*ast.BinaryExpr)
 		if !ok || be.Op != token.SUB {
